@@ -51,6 +51,16 @@ CHECKS = {
             'Every tree of the stated space is built on the real code; where deriv/deriv2 are offered they are compared with exact jets; offered-ness follows the documented rule; exceptions from deriv where the energy is defined are violations.',
             'Trusted: AD jets of the documented formulas; documented numerical fallback h=1e-6 and its rounding-error model (DESIGN 2.5).',
             'DESIGN.md 4/C07'),
+    'C08': (E1, 'exploration',
+            'exhaustive enumeration of every set of 1..4 (thorough 5) ranges over {>,>=} x {0,1,2,3} (+ -inf), every listing order, three constructions (class, factory, potable text), three evaluation orders on the same object; oracle = set-based reference of the documented selection rule with identifiable quadratics',
+            'Every range set and every permutation of it is built on the real code and evaluated (value, deriv, deriv2) below, at, between and above every start including the adjacent floats, in ascending, descending and interleaved order; listing- and evaluation-order independence are checked by comparing all observations of one set.',
+            'Trusted: the reading of the tie clause recorded in DESIGN 4/C08 (r strictly above a shared start: either range accepted, consistency demanded).',
+            'DESIGN.md 4/C08'),
+    'C10': (E1, 'exploration',
+            'exhaustive enumeration of end-potential pairs x knot lattices (incl. integer-typed knots, non-positive end values) x r_min x constructions (Python classes, spline() modifier, as.buck4 vs long form) on the real code; oracles: bit-identical end potentials outside, advertised shape from public coefficients inside, C2 joins against exact jets with a conditioning-scaled residual tolerance, agreement of constructions',
+            'Every spline of the stated lattice is constructed three ways and probed at the knots, their adjacent floats and an interior lattice; the continuity conditions determine the coefficients uniquely, so a wrong matrix row, swapped argument, shift error or comparison slip violates one of them.',
+            'Trusted: numpy cond/solve for the conditioning estimate; systems with cond > 1e10 or log-space uncertainty > 1e-7 are outside the well-conditioned range of the statement and are skipped (counted).',
+            'DESIGN.md 4/C10'),
 }
 
 NOT_YET = 'check not built yet in this revision of /verif (bounded exhaustive exploration applies; see DESIGN.md section 4)'
